@@ -108,4 +108,58 @@ theorem never_eio {v : Vol} {count : Nat} (hv : VolOK v count) {s : St} (h : Inv
     (hs : Proofs.FsShape.ShapeNodes v.bpc s.nodes) (op : Op) : (step v s op).2 ≠ .err .eio :=
   (step_good hv h op).2.2.2.2 hs
 
+/-! ## `removetree`: the compound call of pyfatfs' own -/
+
+/-- only removals -/
+def Removal : Op → Prop
+  | .remove _ => True
+  | .removedir _ => True
+  | _ => False
+
+theorem expandTree_removals : ∀ (fuel : Nat) (nodes : List Node) (path : List Nat) (loc : Loc),
+    ∀ op ∈ expandTree fuel nodes path loc, Removal op := by
+  intro fuel
+  induction fuel with
+  | zero => intro nodes path loc op h; simp [expandTree] at h
+  | succ f ih =>
+    intro nodes path loc op h
+    simp only [expandTree, List.mem_append, List.mem_map, List.mem_flatMap] at h
+    rcases h with (⟨x, _, rfl⟩ | ⟨d, _, hd⟩) | h
+    · trivial
+    · exact ih nodes _ _ op hd
+    · cases loc with
+      | root => simp at h
+      | node n => simp at h; subst h; trivial
+
+theorem domAll_removals (v : Vol) : ∀ (ops : List Op) (s : St), (∀ op ∈ ops, Removal op) → DomAll v s ops := by
+  intro ops
+  induction ops with
+  | nil => intro s _; trivial
+  | cons op rest ih =>
+    intro s h
+    refine ⟨?_, ih _ (fun o ho => h o (by simp [ho]))⟩
+    have := h op (by simp)
+    cases op <;> simp_all [Removal, InDomain]
+
+/-- `removetree` keeps the invariant, memory = device and the shape of files: it is a run of primitive calls -/
+theorem removetree_good {v : Vol} {count : Nat} (hv : VolOK v count) {s : St} (h : Inv v count s) (path : List Nat) :
+    Inv v count (removetree v s path).1 ∧
+      (Proofs.FsSync.Sync s → Proofs.FsSync.Sync (removetree v s path).1) ∧
+      (Proofs.FsShape.ShapeNodes v.bpc s.nodes → Proofs.FsShape.ShapeNodes v.bpc (removetree v s path).1.nodes) := by
+  unfold removetree
+  split
+  · exact ⟨h, fun x => x, fun x => x⟩
+  · split
+    · exact ⟨h, fun x => x, fun x => x⟩
+    · exact ⟨run_inv hv _ s h, run_sync hv _ s h, run_shape hv _ s h⟩
+
+/-- `removetree` answers like the reference filesystem making the same primitive calls -/
+theorem removetree_sim {v : Vol} {count : Nat} (hv : VolOK v count) {s : St} (h : Inv v count s) (path : List Nat)
+    (loc : Loc) (hr : resolve s.nodes path = some loc) (hd : loc.isDir = true) :
+    abs (removetree v s path).1 =
+      specRun v s (abs s) (expandTree (s.nodes.length + 1) s.nodes path loc) := by
+  unfold removetree
+  simp only [hr, hd, Bool.not_true, Bool.false_eq_true, ↓reduceIte]
+  exact run_sim hv _ s h (domAll_removals v _ s (expandTree_removals _ _ _ _))
+
 end Proofs.FsRun
